@@ -60,13 +60,13 @@ def run(chk, tier, scale=1.0):
 
 
 def _burst_jobs(b, chk, tier, scale):
-    return [dict(build=b, seed=chk.seed * 977 + k, n=[40, 120, 300, 700][k % 4], service=(k % 3 == 1)) for k in range(int((12 if tier == "quick" else 200) * scale) or 1)]
+    return [dict(build=b, seed=chk.seed * 977 + k, n=[40, 120, 300, 700][k % 4], service=(k % 3 == 1), after=(k % 2 == 1)) for k in range(int((12 if tier == "quick" else 200) * scale) or 1)]
 
 
 def replay(chk, rep):
     w = rep["witness"]
     if w.get("burst"):
-        r = pcommon.burst_worker(dict(build=prun.build_daemon("c03-replay"), seed=w["seed"], n=w["n"], service=w["service"]))
+        r = pcommon.burst_worker(dict(build=prun.build_daemon("c03-replay"), seed=w["seed"], n=w["n"], service=w["service"], after=w.get("after")))
         for v in r["viol"]:
             print(v[3])
         return 1 if r["viol"] else 0
